@@ -602,6 +602,12 @@ def main():
     if tier == "quick":
         tm = random.Random(f"c02t:{seed}").sample(tm, TEMPLATE_N)
     members += tm
+    seen_t = set()
+    for m in cse_templates():
+        key = (m["api"], m["desc"], str(m["shapes"]), str(sorted(m["kwargs"].items())))
+        if key not in seen_t:
+            seen_t.add(key)
+            members.append(m)
     results = runner.pmap(work, [(m, Z3_TIMEOUT[tier]) for m in members], chunksize=8)
     status = collections.Counter()
     by_tag = collections.defaultdict(collections.Counter)
@@ -727,6 +733,36 @@ def template_members():
                             shapes[where[0]] = tuple(s_)
                         for api in ("solve_axes", "solve_shapes", "matches"):
                             out.append({"exprs": tuple(exprs), "shapes": shapes, "kwargs": kw, "api": api, "tag": "template:" + tag, "desc": ", ".join(show_expr(e) for e in exprs)})
+    return out
+
+
+def cse_templates():
+    """Several flattened groups with runs of axes that occur nowhere else (einx merges each run into one axis before
+    solving): every subset of known shapes x keyword variants x the three APIs. The runs are independent of each
+    other - a solver that ties two of them together 'resolves' an under-determined member or rejects a consistent one."""
+    import itertools
+
+    sz = {"a": 1, "b": 3, "c": 2, "e": 2, "f": 2, "g": 5}
+    a, b, c, e, f, g = (Ax(n, sz[n]) for n in "abcefg")
+    structures = [
+        [(Grp((a, b, c)),), (Grp((e, f, g)),), (c,), (g,)],
+        [(Grp((a, b, c)),), (Grp((a, b)), c)],
+        [(Grp((a, b, c)),), (Grp((e, f, g)),), (Grp((a, b)), Grp((e, f)))],
+        [(Grp((a, b, c)), Grp((e, f, g))), (c, g)],
+        [(Grp((a, b, c)),), (Grp((e, f, c)),), (c,)],
+    ]
+    out = []
+    for exprs in structures:
+        shapes0 = [tuple(shape(expand(x))) for x in exprs]
+        for known in itertools.product([True, False], repeat=len(exprs)):
+            if not any(known):
+                continue
+            shapes = [s if k else None for s, k in zip(shapes0, known)]
+            for kw in ({}, {"c": sz["c"]}, {"c": sz["c"], "g": sz["g"]}):
+                names = {l.name for x in exprs for l, _ in leaves(expand(x)) if isinstance(l, Ax)}
+                kw = {k: v for k, v in kw.items() if k in names}
+                for api in ("solve_shapes", "matches", "solve_axes"):
+                    out.append({"exprs": tuple(exprs), "shapes": shapes, "kwargs": dict(kw), "api": api, "tag": "template:cse-runs", "desc": ", ".join(show_expr(x) for x in exprs)})
     return out
 
 
